@@ -143,6 +143,13 @@ def execAssign (B : Build) (regs : List (String × Ext)) (dst op : String) (args
   | "neg", [a] => do put (Ext.neg (← reg a))
   | "dbl", [a] => do put (B.dbl (← reg a))
   | "aff", [a] => do put (Ext.ofAffine (← reg a).affine)
+  | "nbat", rs | "bconv", rs =>
+    -- entry i (the form) of a batch normalisation: the affine form of that element
+    match ((op.splitOn ".").getD 1 "").toNat? with
+    | some i => match rs[i]? with
+      | some a => do put (Ext.ofAffine (← reg a).affine)
+      | none => .error "bad-op"
+    | none => .error "bad-op"
   | "redec", [a] => do
     let e ← reg a
     match e.encode B.sr with
